@@ -1,3 +1,214 @@
 package main
 
+import (
+	"context"
+	"fmt"
+	"strings"
+
+	log "github.com/go-spring/log"
+)
+
+// ---------------------------------------------------------------------------------------------
+// C02 - each tag is served by the most specific configured logger, else root.
+//
+// A universe of 10 registered tags sharing prefixes and near-prefixes; every assignment of tag
+// lists (<= 2 patterns each, from a 16-pattern alphabet of literals, wildcards and malformed
+// wildcards) to 2 non-root loggers (3 with single-pattern lists; thorough: 3 with <= 2 / 4 with
+// <= 1) x {no root, root, root with tags}. Reference: longest-prefix router + the four error rules.
+// ---------------------------------------------------------------------------------------------
+
+var c02TagNames = []string{"_a_b", "_a_b_c", "_a_b_c_d", "_a_c", "_ab_c", "a_b", "a_b_c", "abc", "_a_bc", "a_bc_d"}
 var c02Universe = map[string]bool{}
+var c02Tags = map[string]*log.Tag{}
+
+func init() {
+	for _, n := range c02TagNames {
+		c02Universe[n] = true
+		c02Tags[n] = log.RegisterTag(n)
+	}
+}
+
+var c02Patterns = []string{"_a_b", "_a_b_c", "_a_c", "a_b", "abc", "_zz_unused", "_a_*", "_a_b_*", "_a_b_c_*", "a_*", "_ab_*", "_x_*", "a_b_*", "*", "_a*", "a_*_b"}
+
+type c02Case struct {
+	Loggers []string `json:"logger_tags"` // tags attribute of logger l0, l1, ...
+	Root    string   `json:"root"`        // "none" | "plain" | "tags"
+}
+
+// refRoute returns the serving logger name ("l0".., "root" or "console") per tag, or an error.
+func refRoute(c c02Case) (map[string]string, bool) {
+	owner := map[string]string{}
+	for i, attr := range c.Loggers {
+		name := fmt.Sprintf("l%d", i)
+		n := 0
+		for _, p := range strings.Split(attr, ",") {
+			p = strings.TrimSpace(p)
+			if p == "" {
+				continue
+			}
+			if strings.Contains(p, "*") && !strings.HasSuffix(p, "_*") {
+				return nil, false
+			}
+			if o, ok := owner[p]; ok && o != name {
+				return nil, false
+			}
+			owner[p] = name
+			n++
+		}
+		if n == 0 {
+			return nil, false
+		}
+	}
+	if c.Root == "tags" {
+		return nil, false
+	}
+	def := "console"
+	if c.Root == "plain" {
+		def = "root"
+	}
+	out := map[string]string{}
+	for _, tag := range c02TagNames {
+		serve := def
+		if o, ok := owner[tag]; ok {
+			serve = o
+		} else {
+			// proper underscore-delimited prefixes, longest first
+			for i := len(tag) - 1; i > 0; i-- {
+				if tag[i] == '_' {
+					if o, ok := owner[tag[:i]+"_*"]; ok {
+						serve = o
+						break
+					}
+				}
+			}
+		}
+		out[tag] = serve
+	}
+	return out, true
+}
+
+func init() {
+	definePart("C02", "c02/tag-routing", "qt",
+		fmt.Sprintf("10 registered tags; tag lists of <= 2 patterns from %d (with blanks / duplicate separators) on 2 loggers, single patterns on 3 (thorough: <=2 on 3 loggers over 8 patterns, single on 4) x root none/plain/with-tags", len(c02Patterns)),
+		func(tier string, yield func(c02Case)) {
+			var lists []string
+			for i, p := range c02Patterns {
+				lists = append(lists, p)
+				for j := i + 1; j < len(c02Patterns); j++ {
+					if (i+j)%2 == 0 {
+						lists = append(lists, p+","+c02Patterns[j])
+					} else {
+						lists = append(lists, " "+c02Patterns[j]+" ,, "+p+", ")
+					}
+				}
+			}
+			lists = append(lists, "", " , ", "_a_b,_a_b")
+			roots := []string{"none", "plain", "tags"}
+			for _, a := range lists {
+				yield(c02Case{Loggers: []string{a}, Root: "plain"})
+				yield(c02Case{Loggers: []string{a}, Root: "none"})
+				for _, b := range lists {
+					for _, r := range roots {
+						if r == "tags" && (len(a)+len(b))%7 != 0 {
+							continue
+						}
+						yield(c02Case{Loggers: []string{a, b}, Root: r})
+					}
+				}
+			}
+			single := c02Patterns
+			for _, a := range single {
+				for _, b := range single {
+					for _, c := range single {
+						yield(c02Case{Loggers: []string{a, b, c}, Root: roots[(len(a)+len(b)+len(c))%2]})
+					}
+				}
+			}
+			if tier == "thorough" {
+				sub := []string{"_a_b", "_a_*", "_a_b_*", "_a_b_c_*", "a_*", "_ab_*", "abc", "*"}
+				var l2 []string
+				for i, p := range sub {
+					l2 = append(l2, p)
+					for j := i + 1; j < len(sub); j++ {
+						l2 = append(l2, p+","+sub[j])
+					}
+				}
+				for _, a := range l2 {
+					for _, b := range l2 {
+						for _, c := range l2 {
+							yield(c02Case{Loggers: []string{a, b, c}, Root: "plain"})
+						}
+					}
+				}
+				for _, a := range single {
+					for _, b := range single {
+						for _, c := range single {
+							for _, d := range single {
+								yield(c02Case{Loggers: []string{a, b, c, d}, Root: "none"})
+							}
+						}
+					}
+				}
+			}
+		},
+		func(c c02Case) (string, []Violation, int) {
+			confReset()
+			conf := map[string]string{"appender.rroot.type": "Rec"}
+			for i, tags := range c.Loggers {
+				n := fmt.Sprintf("l%d", i)
+				conf["appender.r"+n+".type"] = "Rec"
+				conf["logger."+n+".type"] = "Logger"
+				conf["logger."+n+".appenderRef.ref"] = "r" + n
+				if tags != "" {
+					conf["logger."+n+".tags"] = tags
+				}
+			}
+			switch c.Root {
+			case "plain", "tags":
+				conf["logger.root.type"] = "Logger"
+				conf["logger.root.appenderRef.ref"] = "rroot"
+				if c.Root == "tags" {
+					conf["logger.root.tags"] = "_a_*"
+				}
+			}
+			key := fmt.Sprintf("loggers=%q root=%s", c.Loggers, c.Root)
+			// excluded: the empty-prefix wildcard "_*" and inner-'*' patterns that end in "_*"
+			want, ok := refRoute(c)
+			err, pn := safeRefresh(conf)
+			if pn != nil {
+				return "panic", []Violation{{Clause: "refresh-panicked", Key: key, Detail: fmt.Sprint(pn)}}, 1
+			}
+			if ok != (err == nil) {
+				return "mismatch", []Violation{{Clause: "config-validity", Key: key, Detail: fmt.Sprintf("Refresh err=%v, the routing rules say valid=%v (%s)", err, ok, confString(conf))}}, 1
+			}
+			if !ok {
+				return "rejected", nil, 1
+			}
+			var v []Violation
+			ctx := context.Background()
+			for _, tag := range c02TagNames {
+				log.Info(ctx, c02Tags[tag], log.Msg("t:"+tag))
+			}
+			log.Destroy()
+			served := map[string][]string{}
+			for app, items := range recStore {
+				for _, it := range items {
+					served[strings.TrimPrefix(it.ID, "t:")] = append(served[strings.TrimPrefix(it.ID, "t:")], strings.TrimPrefix(app, "r"))
+				}
+			}
+			for _, line := range strings.Split(consoleBuf.String(), "\n") {
+				if i := strings.Index(line, "msg=t:"); i >= 0 {
+					served[line[i+6:]] = append(served[line[i+6:]], "console")
+				}
+			}
+			var sb strings.Builder
+			for _, tag := range c02TagNames {
+				got := served[tag]
+				fmt.Fprintf(&sb, "%s->%v ", tag, got)
+				if len(got) != 1 || got[0] != want[tag] {
+					v = append(v, Violation{Clause: "tag-served-by", Key: key, Detail: fmt.Sprintf("tag %s served by %v, want exactly [%s] (%s)", tag, got, want[tag], confString(conf))})
+				}
+			}
+			return sb.String(), v, len(c02TagNames)
+		})
+}
